@@ -227,7 +227,7 @@ func genCase(r *rng.R, id int) caseT {
 				o.Val = F(math.NaN())
 			}
 		case x < 20:
-			o = opT{Kind: "setcpu", Val: F(r.PickF(-1, 0, 0.1, 0.25, 0.5, 0.6, 0.75, 0.9, 1))}
+			o = opT{Kind: "setcpu", Val: F(r.PickF(-1, 0, 0.1, 0.25, 0.5, 0.6, 0.75, 0.9, 1, 1.0000001, 1.2, 2))}
 		case x < 62:
 			o = opT{Kind: "entry", Inbound: r.Chance(4, 5), Res: r.Intn(2), Batch: 1}
 			switch y := r.Intn(20); {
